@@ -141,7 +141,7 @@ def _begin_run(sc, env, budget):
         del _GARBAGE[::2]
     seams.set_hash_mode(sc.get("hash_mode", "salted"))
     seams.set_salt(sc.get("salt", 0))
-    seams.UUID.reset()
+    seams.UUID.reset(sc.get("uuid_mode"), sc.get("salt", 0))
     faults = {}
     for f in sc.get("faults") or []:
         if "at_call" in f:
